@@ -1,11 +1,11 @@
 package main
 
 import (
-	"os"
 	"fmt"
 	"go/ast"
 	"go/token"
 	"go/types"
+	"os"
 	"strings"
 
 	"golang.org/x/tools/go/ssa"
@@ -14,12 +14,12 @@ import (
 func init() { register("C19", checkC19) }
 
 var c19Reviewed = []reviewedEntry{
-	{"getChildName", "l.Keys()[0]", "every list has a key (substatement table: list/key is 1..1, recorded C09 finding), so a list entry has at least one key name", ""},
-	{"getChildName", "vals[0]", "guarded by len(vals) == 0 ⇒ return", "lenguard"},
-	{"convertToDataNode", "n.Keys()[0]", "see getChildName: list entries have at least one key", ""},
-	{"convertToDataNode", "values[0]", "second operand of `len(values) != 1 || …` inside `len(values) > 0 && …`", ""},
-	{"convertToDataNode", "children[i]", "children is made with len(ukids) and i ranges over ukids", ""},
-	{"JSONReader.name", "jr.decodedName[idx + 1:]", "idx is a found index (idx != -1), so idx+1 ≤ len", ""},
+	{"getChildName", "‹schema.ListEntry›.Keys()[0]", "every list has a key (substatement table: list/key is 1..1, recorded C09 finding), so a list entry has at least one key name", ""},
+	{"getChildName", "‹[]string›[0]", "guarded by len(vals) == 0 ⇒ return", "lenguard"},
+	{"convertToDataNode", "‹schema.ListEntry›.Keys()[0]", "see getChildName: list entries have at least one key", ""},
+	{"convertToDataNode", "‹[]string›[0]", "second operand of `len(values) != 1 || …` inside `len(values) > 0 && …`", ""},
+	{"convertToDataNode", "‹[]datanode.DataNode›[‹int›]", "children is made with len(ukids) and i ranges over ukids", ""},
+	{"JSONReader.name", "‹*encoding.JSONReader›.decodedName[‹int› + 1:]", "idx is a found index (idx != -1), so idx+1 ≤ len", ""},
 }
 
 func checkC19(w *World, r *Report) {
